@@ -14,42 +14,42 @@ import (
 
 func VerifHarness_C10_BasketCreate() {
 	zzinv.Install()
-	k, _ := symKeeper()
+	k, _ := zzvSymKeeper()
 	req := &types.MsgCreate{}
 	zzinv.RunDet(&k, req, func(ctx context.Context) (interface{}, error) { return k.Create(ctx, req) })
 }
 
 func VerifHarness_C10_BasketPut() {
 	zzinv.Install()
-	k, _ := symKeeper()
+	k, _ := zzvSymKeeper()
 	req := &types.MsgPut{}
 	zzinv.RunDet(&k, req, func(ctx context.Context) (interface{}, error) { return k.Put(ctx, req) })
 }
 
 func VerifHarness_C10_BasketUpdateBasketFee() {
 	zzinv.Install()
-	k, _ := symKeeper()
+	k, _ := zzvSymKeeper()
 	req := &types.MsgUpdateBasketFee{}
 	zzinv.RunDet(&k, req, func(ctx context.Context) (interface{}, error) { return k.UpdateBasketFee(ctx, req) })
 }
 
 func VerifHarness_C10_BasketUpdateCurator() {
 	zzinv.Install()
-	k, _ := symKeeper()
+	k, _ := zzvSymKeeper()
 	req := &types.MsgUpdateCurator{}
 	zzinv.RunDet(&k, req, func(ctx context.Context) (interface{}, error) { return k.UpdateCurator(ctx, req) })
 }
 
 func VerifHarness_C10_BasketUpdateDateCriteria() {
 	zzinv.Install()
-	k, _ := symKeeper()
+	k, _ := zzvSymKeeper()
 	req := &types.MsgUpdateDateCriteria{}
 	zzinv.RunDet(&k, req, func(ctx context.Context) (interface{}, error) { return k.UpdateDateCriteria(ctx, req) })
 }
 
 func VerifHarness_C10_BasketTake() {
 	zzinv.Install()
-	k, _ := symKeeper()
+	k, _ := zzvSymKeeper()
 	req := &types.MsgTake{}
 	zz.AssumeLoopBound("keeper.Keeper).Take", zz.Bound("iter", 1)+1)
 	zzinv.RunDet(&k, req, func(ctx context.Context) (interface{}, error) { return k.Take(ctx, req) })
